@@ -61,7 +61,11 @@ def tie(ctx):
     n = ctx.budget(300, 6000)
     abad, astats = corr_assemble.run(ctx.seed, n, modes=("hyd",))
     fbad, fstats = corr_fixed(ctx.seed, ctx.budget(300, 6000))
-    return {"cases": n + fstats["nodes"], "disagreements": abad + fbad, "stats": {"assembly": astats, "fixed_mean": fstats}}
+    # compressor / flow controller / pressure controller / heat consumer class methods: generated model vs real method
+    import kernel_selfcheck
+    cbad, cstats = kernel_selfcheck.run_components(ctx.seed, ctx.budget(400, 8000))
+    return {"cases": n + fstats["nodes"] + sum(v["inputs"] for v in cstats.values()), "disagreements": abad + fbad + cbad,
+            "stats": {"assembly": astats, "fixed_mean": fstats, "components": cstats}}
 
 
 def gen(rng):
